@@ -222,7 +222,7 @@ WORDS = ['ab', 'ABC', 'x1', '12', '007', 'a-b', 'a_b', 'a.b', 'foo bar', ' lead'
 
 
 def rich_examples(rnd):
-    mode = rnd.choice(['words', 'chars', 'template', 'mixed', 'tails'])
+    mode = rnd.choice(['words', 'chars', 'template', 'mixed', 'tails', 'manyvalues'])
     n = rnd.choice([1, 2, 3, 4, 6, 9, 15])
     alpha = alphabet()
     out = []
@@ -248,6 +248,21 @@ def rich_examples(rnd):
             k = rnd.choice([0, 0, 1, 2, 3, 4, 5])
             out.append(h + ''.join(rnd.choice(tailch) for _ in range(k)))
         out.append(heads[0])
+    elif mode == 'manyvalues':
+        # one variable fragment with more distinct values than Size.max_strings_in_group (10), whose class is widened
+        # only by values that come late in the input
+        k = rnd.randint(11, 17)
+        low = 'abcdefghijklmnopqrstuvwxyz'
+        vals = []
+        while len(vals) < k:
+            v = ''.join(rnd.choice(low) for _ in range(rnd.randint(2, 4)))
+            if v not in vals:
+                vals.append(v)
+        late = rnd.sample(['Nu', 'Xi', 'q7', 'été', 'A', 'x_y', 'Zz9', 'ß'], rnd.randint(1, 3))
+        prefix = rnd.choice(['', '', 'id-', '#'])
+        out = [prefix + v for v in vals + late]
+        if rnd.random() < 0.3:
+            rnd.shuffle(out)
     else:
         out = [rnd.choice(WORDS) + rnd.choice(['', rnd.choice(alpha)]) for _ in range(n)]
     if rnd.random() < 0.2:
